@@ -4,7 +4,9 @@
      prqlc/src/utils/mod.rs      OrMap::or_map
      prqlc/src/sql/gen_query.rs  translate_select_pipeline: offset / limit
      prqlc/src/utils/id_gen.rs   IdGenerator::skip / gen, IdLoader (ids of an RQ handed to rq_to_sql)
-   "returns Panic" = "the Rust code panics in a build with overflow checks" (what the harness links).
+   "returns Panic" = "the Rust code panics in a build with overflow checks" (what the harness links);
+   "returns Fail" = "the Rust code returns Err(_)".  Since commit 18f8c11 the take-range arithmetic is checked
+   (overflow -> Err("take range is too large")): the model below mirrors that code.
    Executable definitions only. *)
 From Coq Require Import List ZArith Bool.
 From PV Require Import Model.Checked.
@@ -31,16 +33,23 @@ Definition or_map (a b : option Z) (f : Z -> Z -> out Z) : out (option Z) :=
   | None, b => Ret b
   end.
 
+(* fn shift(a, b) = a.checked_add(b).and_then(|x| x.checked_sub(1)).ok_or_else(overflow):
+   `a + b - 1`, Err("take range is too large") instead of overflowing (commit 18f8c11) *)
+Definition shift (a b : Z) : out Z :=
+  match checked_add64 a b with
+  | Some x => match checked_sub64 x 1 with Some y => Ret y | None => Fail end
+  | None => Fail
+  end.
+
 (* one iteration of the loop of range_of_ranges *)
 Definition step (current : irange) (range : erange) : out irange :=
   bind (try_range_into_int range) (fun r =>
-  (* range.start = range.start.or_map(current.start, |a, b| a + b - 1) *)
-  bind (or_map (r_start r) (r_start current) (fun a b => bind (add64 a b) (fun t => sub64 t 1))) (fun s =>
-  (* range.end = range.end.map(|b| current.start.unwrap_or(1) + b - 1) *)
+  (* range.start = match (range.start, current.start) { (Some(a), Some(b)) => Some(shift(a, b)?), (a, None) => a, (None, b) => b } *)
+  bind (or_map (r_start r) (r_start current) shift) (fun s =>
+  (* range.end = range.end.map(|b| shift(current.start.unwrap_or(1), b)).transpose()? *)
   bind (match r_end r with
         | None => Ret None
-        | Some b => bind (add64 (match r_start current with Some c => c | None => 1 end) b) (fun t =>
-                    bind (sub64 t 1) (fun u => Ret (Some u)))
+        | Some b => bind (shift (match r_start current with Some c => c | None => 1 end) b) (fun u => Ret (Some u))
         end) (fun e =>
   (* range.end = current.end.or_map(range.end, i64::min) *)
   bind (or_map (r_end current) e (fun a b => Ret (min64 a b))) (fun e' =>
@@ -59,10 +68,11 @@ Definition range_of_ranges (rs : list erange) : out irange :=
   | _, _ => Ret c
   end).
 
-(* let offset = take.start.map(|s| s - 1).unwrap_or(0); let limit = take.end.map(|e| e - offset); *)
+(* let offset = match take.start { Some(s) => s.checked_sub(1).ok_or_else(too_large)?, None => 0 };
+   let limit  = match take.end   { Some(e) => Some(e.checked_sub(offset).ok_or_else(too_large)?), None => None }; *)
 Definition limit_offset (t : irange) : out (Z * option Z) :=
-  bind (match r_start t with Some s => sub64 s 1 | None => Ret 0 end) (fun off =>
-  bind (match r_end t with Some e => bind (sub64 e off) (fun l => Ret (Some l)) | None => Ret None end) (fun lim =>
+  bind (match r_start t with Some s => ok_or (checked_sub64 s 1) | None => Ret 0 end) (fun off =>
+  bind (match r_end t with Some e => bind (ok_or (checked_sub64 e off)) (fun l => Ret (Some l)) | None => Ret None end) (fun lim =>
   Ret (off, lim))).
 
 (* what translate_select_pipeline computes for the takes of one SELECT: (OFFSET, LIMIT) *)
